@@ -6,7 +6,7 @@
      - what zerv's own SemVer parser accepts it prints back unchanged.
    and, below, THE GRAMMAR THEOREMS: the printed string is in the grammar, for every object and at the level of the commands. *)
 From ZV Require Import Str Sanitize SanitizeSpec SanitizeProofs Zerv Render Convert SemVer Pep440 SemVerProofs NoPanicProofs ConvertProofs Bump Cli Flow
-                       RegexSrc PepWfProofs AsciiProofs GrammarProofs OutputGrammar ParseBack Pep440Nf PepRoundTrip PepParseBack.
+                       RegexSrc PepWfProofs AsciiProofs GrammarProofs OutputGrammar ParseBack Pep440Nf PepRoundTrip PepParseBack PepOutNf OutputReparse.
 From RelationAlgebra Require regex.
 
 (* any value a component contributes is the image of a sanitiser *)
@@ -54,10 +54,14 @@ Proof. intros z p H. split; [apply (pep_output_chars z p H)|apply (pep_output_as
 Theorem c01_own_parser_accepts_semver : forall z, semver_parse (semver_print (semver_of_zerv z)) = Some (semver_of_zerv z).
 Proof. exact parse_back. Qed.
 
-(* ... and its own PEP 440 parser accepts every PEP 440 string zerv prints whose numbers fit 32 bits, returning the value printed
-   (pep_nf_b is evaluated on every PEP 440 value rendered in the correspondence runs) *)
-Theorem c01_own_parser_accepts_pep440 : forall z p, pep_of_zerv z = Some p -> pep_nf_b p = true -> pep_parse (pep_print p) = Some p.
-Proof. intros z p _ H. apply pep_parse_print, pep_nf_b_sound, H. Qed.
+(* ... and its own PEP 440 parser accepts EVERY PEP 440 string zerv prints and returns the value printed: every PEP 440 value rendered
+   from a Zerv object is in normal form (numbers below 2^32 - larger variable values never reach a numeric field -, every label with its
+   number, local segments lower-case alphanumeric or numbers) *)
+Theorem c01_pep440_rendering_normal_form : forall z p, pep_of_zerv z = Some p -> pep_nf p.
+Proof. exact pep_of_zerv_nf. Qed.
+
+Theorem c01_own_parser_accepts_pep440 : forall z p, pep_of_zerv z = Some p -> pep_parse (pep_print p) = Some p.
+Proof. exact pep_parse_back_all. Qed.
 
 (* the PEP 440 value is printable in normal form: non-empty release, every label carries its number, local segments are numbers or
    non-empty ASCII-alphanumeric strings *)
@@ -87,6 +91,26 @@ Proof. exact render_pep440_in_grammar. Qed.
 
 Check c01_pep_conversion_total : forall z, pep_of_zerv z <> None.
 
+(* ... and is read back by zerv's own parser of that format as exactly the value printed (`zerv check` accepts every version zerv prints) *)
+Theorem c01_version_semver_reparsed : forall a stdin now t, g_output_format a = OutSemver -> version_output a stdin now = OOk t ->
+  exists v, t = prefix_of a ++ semver_print v /\ semver_parse (semver_print v) = Some v.
+Proof. exact version_semver_reparsed. Qed.
+Theorem c01_version_pep440_reparsed : forall a stdin now t, g_output_format a = OutPep440 -> version_output a stdin now = OOk t ->
+  exists p, t = prefix_of a ++ pep_print p /\ pep_parse (pep_print p) = Some p.
+Proof. exact version_pep440_reparsed. Qed.
+Theorem c01_flow_semver_reparsed : forall f stdin now t, g_output_format (f_base f) = OutSemver -> flow_output f stdin now = OOk t ->
+  exists v, t = prefix_of (f_base f) ++ semver_print v /\ semver_parse (semver_print v) = Some v.
+Proof. exact flow_semver_reparsed. Qed.
+Theorem c01_flow_pep440_reparsed : forall f stdin now t, g_output_format (f_base f) = OutPep440 -> flow_output f stdin now = OOk t ->
+  exists p, t = prefix_of (f_base f) ++ pep_print p /\ pep_parse (pep_print p) = Some p.
+Proof. exact flow_pep440_reparsed. Qed.
+Theorem c01_render_semver_reparsed : forall inf pre s t, render_cmd inf FSemver pre s = OOk t ->
+  exists v, t = pre ++ semver_print v /\ semver_parse (semver_print v) = Some v.
+Proof. exact render_semver_reparsed. Qed.
+Theorem c01_render_pep440_reparsed : forall inf pre s t, render_cmd inf FPep440 pre s = OOk t ->
+  exists p, t = pre ++ pep_print p /\ pep_parse (pep_print p) = Some p.
+Proof. exact render_pep440_reparsed. Qed.
+
 Print Assumptions c01_values_are_sanitised.
 Print Assumptions c01_sanitised_contract.
 Print Assumptions c01_pep_conversion_total.
@@ -105,3 +129,10 @@ Print Assumptions c01_semver_ascii.
 Print Assumptions c01_pep440_ascii.
 Print Assumptions c01_own_parser_accepts_semver.
 Print Assumptions c01_own_parser_accepts_pep440.
+Print Assumptions c01_pep440_rendering_normal_form.
+Print Assumptions c01_version_semver_reparsed.
+Print Assumptions c01_version_pep440_reparsed.
+Print Assumptions c01_flow_semver_reparsed.
+Print Assumptions c01_flow_pep440_reparsed.
+Print Assumptions c01_render_semver_reparsed.
+Print Assumptions c01_render_pep440_reparsed.
